@@ -30,7 +30,7 @@ def system_from_case(case):
     coords = np.concatenate([diff, np.array(fw['coords'], float)], axis=1)
     return {
         'matrix': np.array(case['lattice']['matrix'], float), 'site_frac': np.array(case['sites']['frac'], float) + np.array(case['sites'].get('image_shift') or 0, float), 'site_labels': list(case['sites']['labels']),
-        'radius': case['radius'], 'f': case['inner_fraction'], 'coords': coords, 'symbols': ['Li'] * diff.shape[1] + list(fw['symbols']),
+        'radius': None if case.get('auto_radius') else case['radius'], 'f': case['inner_fraction'], 'coords': coords, 'symbols': ['Li'] * diff.shape[1] + list(fw['symbols']),
         'dt': case['time_step'], 'temp': case['temperature'],
     }
 
@@ -42,7 +42,7 @@ def compute(sysd, case, flags):
     M = sysd['matrix']
     traj = cases.trajectory(sysd['coords'], sysd['symbols'], M, sysd['dt'], sysd['temp'])
     sites = cases.sites_structure(M, sysd['site_frac'], sysd['site_labels'])
-    radius = dict(sysd['radius']) if isinstance(sysd['radius'], dict) else float(sysd['radius'])
+    radius = dict(sysd['radius']) if isinstance(sysd['radius'], dict) else (None if sysd['radius'] is None else float(sysd['radius']))
     tr = gcall(traj.transitions_between_sites, sites, 'Li', site_radius=radius, site_inner_fraction=sysd['f'])
     out = {'states': np.asarray(tr.states), 'inner': np.asarray(tr.inner_states)}
     out['events'] = sorted(tuple(int(x) for x in r) for r in tr.events[EC].to_numpy())
@@ -127,6 +127,26 @@ def run(case):
     if (want == -2).any() or not (want[1:] != want[:-1]).any():
         raise Skip()
     A = system_from_case(case)
+    if case.get('auto_radius'):
+        # automatic site radius (site_radius=None): the radius is min(2 x vibration amplitude, half the smallest site separation - 0.005);
+        # the comparison is only meaningful when no atom sits within 1e-6 A of that radius (a last-bit change of the amplitude would flip it)
+        from gemdat.metrics import TrajectoryMetrics
+
+        li_ = [i for i, s_ in enumerate(A['symbols']) if s_ == 'Li']
+        st_ = np.diff(A['coords'][:, li_], axis=0)
+        if np.any(np.abs(np.abs(st_ - np.round(st_)) - 0.5) < 1e-6):
+            raise Skip()  # a half-cell step is a genuine tie of the minimum image: the amplitude (hence the radius) is not defined by the geometry
+        amp = float(gcall(TrajectoryMetrics(cases.trajectory(A['coords'], A['symbols'], A['matrix'], A['dt'], A['temp']).filter('Li')).vibration_amplitude))
+        sf_ = np.array(case['sites']['frac'], float)
+        D_ = oracle.min_image_dist(sf_, sf_, A['matrix'])
+        sep_ = float(np.min(D_[np.triu_indices(len(sf_), 1)])) if len(sf_) > 1 else float('inf')
+        r_ = 2 * amp if sep_ >= 4 * amp else 0.5 * sep_ - 0.005
+        if not np.isfinite(r_) or r_ <= 0 or abs(sep_ - 4 * amp) < 1e-6:
+            raise Skip()
+        for frac_ in (1.0, case['inner_fraction']):
+            w_, _ = sitesys.expected_states(case, radii=np.full(len(sf_), r_), fraction=frac_, band=1e-6)
+            if (w_ == -2).any() or (frac_ == 1.0 and not (w_[1:] != w_[:-1]).any()):
+                raise Skip()  # (a history without any change is outside the event builder's domain)
     tf = case['transform']
     T, N, _ = A['coords'].shape
     Nd = sum(1 for s in A['symbols'] if s == 'Li')
@@ -304,7 +324,7 @@ def run(case):
                         fail('optimal-path-cost', f'{ca!r} vs {cb_!r} between voxels {s0}->{s1} / {t0}->{t1}')
                     flags.add('path-compared')
                 flags.add('grid-compared')
-    labels = [kind, case['lattice']['family']] + sorted(flags)
+    labels = [kind, case['lattice']['family']] + sorted(flags) + (['automatic-radius'] if case.get('auto_radius') else [])
     if a['jumps'] is not None:
         labels.append('has-jumps')
     nt = (not identity) and a['jumps'] is not None and (not kind.startswith('translate') or 'wraps-through-face' in flags)
@@ -335,6 +355,7 @@ def invariance_cases(draw, tier):
         tf['perm'] = draw(st.permutations(list(range(8))))
     tf['wrap_sites'] = draw(st.booleans())
     c['transform'] = tf
+    c['auto_radius'] = isinstance(c['radius'], float) and draw(st.integers(0, 4)) == 0  # site_radius=None: the library chooses the radius
     return c
 
 
